@@ -286,16 +286,26 @@ def rule_R14_4(ctx):
         if not pushes:
             continue
         bm = anchors.binder_module(prog)
-        binds = [c for c in f.calls() if not c.is_ptr and (c.res or "").startswith(bm + "::")
+
+        def reaches_binder(path_, depth=0):
+            # a binder-module function, or a thin method that only forwards to one
+            if (path_ or "").startswith(bm + "::"):
+                return True
+            h_ = prog.fns.get(path_)
+            if h_ is None or not h_.full or depth > 1 or len(h_.blocks) > 12:
+                return False
+            return any((not c_.is_ptr) and reaches_binder(c_.res, depth + 1) for c_ in h_.calls())
+        binds = [c for c in f.calls() if not c.is_ptr and reaches_binder(c.res)
                  and f.in_any_loop(c.bb)]
         for c in binds:
             found += 1
             # scope argument derives from the pushed chain
-            si = [i for i, t in enumerate(c.argtys) if t == "&mut eval::scope::ScopeStack"]
+            si = [i for i, t in enumerate(c.argtys) if anchors.is_chain_ty(prog, t)]
             bi = [i for i, t in enumerate(c.argtys) if t == "eval::bind::BindType"]
             ok_scope = False
             if si:
-                cp = tuple(p for p in f.canon_op(c.args[si[0]]) if p not in ("&", "*"))
+                cp = tuple(p for p in f.canon_op(anchors.unwrap_carrier(prog, f, c.args[si[0]]))
+                           if p not in ("&", "*"))
                 ok_scope = bool(cp) and cp[0] == ("call", pushes[0].bb)
             ok_decl = False
             if bi:
